@@ -24,6 +24,7 @@ pub fn exec_op(op: &str) -> String {
             .or_else(|| suites::time::exec(&args))
             .or_else(|| suites::framer::exec(&args))
             .or_else(|| suites::assembler::exec(&args))
+            .or_else(|| suites::config::exec(&args))
     });
     match res {
         Ok(Some(s)) => s,
@@ -201,6 +202,7 @@ fn main() {
         "sigflush" => suites::signal::run_flush(&ctx),
         "siglong" => suites::signal::run_long(&ctx),
         "sigreset" => suites::signal::run_reset(&ctx),
+        "cfgfuzz" => suites::config::run(&ctx),
         "expand" => {
             // stdin: requests whose hashes disagreed; output: the individual requests they stand for
             use std::io::BufRead;
